@@ -3,6 +3,6 @@
 \*   WholeCreates  overwrite_if_not_same_contents creates a missing file instead of panicking
 \*   DocsPruned    print_docs_summary_and_objects removes pages of docs/ it did not print
 \*   OpcTracked    ModFiles::new pre-marks only the opcodes.rs files that will be printed
-  WholeCreates = FALSE
-  DocsPruned = FALSE
-  OpcTracked = FALSE
+  WholeCreates = TRUE
+  DocsPruned = TRUE
+  OpcTracked = TRUE
